@@ -523,12 +523,16 @@ pub fn format_block(ctx: &Context, block: &Block, shape: Shape) -> Block {
     while let Some((stmt, semi)) = stmt_iterator.next() {
         ctx = ctx.check_toggle_formatting(stmt);
 
+        // Note: this must be determined on the original statement. A formatted statement consists of new
+        // tokens without position information, so the range check would not work on it
+        let stmt_is_untouched = !matches!(ctx.should_format_node(stmt), FormatNode::Normal);
+
         let shape = shape.reset();
         let mut stmt = format_stmt(&ctx, stmt, shape);
 
         // If this is the first stmt, then remove any leading newlines
         if !found_first_stmt {
-            if let FormatNode::Normal = ctx.should_format_node(&stmt) {
+            if !stmt_is_untouched {
                 stmt = stmt_remove_leading_newlines(stmt);
             }
             found_first_stmt = true;
@@ -536,7 +540,7 @@ pub fn format_block(ctx: &Context, block: &Block, shape: Shape) -> Block {
 
         // If the statement is ignored or outside of the formatting range, it must be left exactly as it
         // was, including its semicolon
-        if !matches!(ctx.should_format_node(&stmt), FormatNode::Normal) {
+        if stmt_is_untouched {
             formatted_statements.push((stmt, semi.to_owned()));
             continue;
         }
@@ -598,11 +602,14 @@ pub fn format_block(ctx: &Context, block: &Block, shape: Shape) -> Block {
         Some((last_stmt, semi)) => {
             ctx = ctx.check_toggle_formatting(last_stmt);
 
+            // See above: determined on the original statement
+            let last_stmt_is_untouched =
+                !matches!(ctx.should_format_node(last_stmt), FormatNode::Normal);
+
             let shape = shape.reset();
             let mut last_stmt = format_last_stmt(&ctx, last_stmt, shape);
             // If this is the first stmt, then remove any leading newlines
-            if !found_first_stmt && matches!(ctx.should_format_node(&last_stmt), FormatNode::Normal)
-            {
+            if !found_first_stmt && !last_stmt_is_untouched {
                 last_stmt = last_stmt_remove_leading_newlines(last_stmt);
             }
 
@@ -610,11 +617,7 @@ pub fn format_block(ctx: &Context, block: &Block, shape: Shape) -> Block {
             // We need to check if we previously had a semicolon, and keep the comments if so
             // (unless the statement is ignored or outside of the formatting range: then it is left as is)
             let semicolon = match semi {
-                Some(semi)
-                    if !matches!(ctx.should_format_node(&last_stmt), FormatNode::Normal) =>
-                {
-                    Some(semi.to_owned())
-                }
+                Some(semi) if last_stmt_is_untouched => Some(semi.to_owned()),
                 Some(semi) => {
                     // Append semicolon trailing trivia to the end, but before the newline
                     // TODO: this is a bit of a hack - we should probably move newline appending to this function
